@@ -273,3 +273,35 @@ class Budget:
 
     def ok(self) -> bool:
         return self.left() > 0
+
+
+def optimized_probe(res, mode: str, seed: int, key: str) -> None:
+    """run harness/probe_optimized.py in two fresh interpreters — ordinary and `python -O` (assert statements compiled away) — on the
+    implementation under test; a failure in either is a violation with the interpreter flag as part of the replay"""
+    import json as _json
+    import subprocess as _sp
+    import sys as _sys
+    from concurrent.futures import ThreadPoolExecutor
+    script = str(Path(__file__).resolve().parent / "probe_optimized.py")
+
+    def one(flag):
+        env = dict(os.environ, PYTHONPATH=str(REPO), PYTHONDONTWRITEBYTECODE="1")
+        env.pop("PYTHONOPTIMIZE", None)
+        p = _sp.run([_sys.executable] + ([flag] if flag else []) + [script, mode, str(seed)], capture_output=True, text=True, env=env, timeout=900)
+        for line in p.stdout.splitlines():
+            if line.startswith("PROBE "):
+                return _json.loads(line[6:])
+        return {"optimize": flag, "failures": [], "crashed": (p.stderr or p.stdout)[-300:]}
+    with ThreadPoolExecutor(max_workers=2) as ex:
+        outs = list(ex.map(one, ("", "-O")))
+    for flag, o in zip(("", "-O"), outs):
+        res.evaluations += 1
+        res.count(f"interpreter-flag-probe:{mode}:{'-O' if flag else 'default'}")
+        if o.get("crashed"):
+            res.notes.append(f"probe {mode} under python {flag or '(default)'} could not run: {o['crashed']}")
+        elif o["failures"]:
+            res.violation(f"in a fresh interpreter started as `python {flag}`".rstrip() + f" ({mode} probe): " + "; ".join(o["failures"][:3]),
+                          {"probe": mode, "interpreter_flag": flag, "seed": seed, "failures": o["failures"][:6],
+                           "how": f"PYTHONPATH=<repo> python {flag} harness/probe_optimized.py {mode} {seed}"}, key=key)
+            return
+    res.nontrivial.add(("interpreter-flag-probe", mode))
